@@ -13,6 +13,20 @@ from props._machine import run_mgen
 from vlib.core import known_for
 
 
+# problems whose output has the growth/shrink paths of every shape: compressed above dense,
+# compressed below dense, permuted orderings, contraction buckets
+GROWTH = []
+for _out in ("sd", "ss", "ds", "d1s0", "s1s0", "s1d0"):
+    for _in in ("ds", "dd"):
+        GROWTH.append(["a(i,j) = b(i,j)", {"a": _out, "b": _in}])
+for _out in ("sds", "ssd", "sdd", "dss", "dsd", "d2d1s0", "s2d0s1"):
+    GROWTH.append(["a(i,j,k) = b(i,j,k)", {"a": _out, "b": "ddd"}])
+for _out in ("ss", "sd", "ds"):
+    GROWTH.append(["a(i,j) = b(i,k) * c(k,j)", {"a": _out, "b": "ds", "c": "ds"}])
+GROWTH.append(["a(i) = b(i,j) * c(j)", {"a": "s", "b": "ds", "c": "d"}])
+GROWTH.append(["a(i,j) = b(i,j) + c(i,j)", {"a": "sd", "b": "ds", "c": "ss"}])
+
+
 def run(chk):
     quick = chk.tier == "quick"
     chk.rule = ("sweep.TEMPLATES x formats (exhaustive when small, seeded sample otherwise) x index sizes {0,1,2,3} x "
@@ -33,7 +47,8 @@ def run(chk):
     for cap in caps:
         cfg = {"seed": chk.seed * 31 + (int(cap) if cap else 7), "kinds": ["eval", "hist"],
                "fmt_cap": 3 if quick else 10, "n_inputs": 2 if quick else 4,
-               "max_problems": 60 if quick else 600, "per_shard": 8, "fuel": 400000}
+               "max_problems": (len(GROWTH) + 40) if quick else 600, "per_shard": 8, "fuel": 400000,
+               "priority": GROWTH if cap else GROWTH[:6]}
         index, failing = run_mgen(chk, f"cap{cap or 'default'}", cfg, cap)
         if index is None:
             continue
